@@ -96,30 +96,28 @@ theorem tailC_flat (reg : Registry) (size last alloc xferLen inpLen : Nat) (pipe
     (unpackTailC reg size last alloc xferLen pipe r3).flat =
       Raw.unpackTail reg size last alloc xferLen inpLen pipe r3.flatten := by
   unfold unpackTailC Raw.unpackTail
-  by_cases h1 : last < 1 + xferLen
-  · simp [h1, CRead.flat, COut.flat]
-  · simp only [h1, if_false]
-    obtain ⟨r', hrf, hfl⟩ := readFull_flatten (last - (1 + xferLen)) r3
-    simp only [hrf]
-    by_cases hn : last - (1 + xferLen) ≤ r3.flatten.length
-    · have hfl' := hfl hn
-      simp only [hn, decide_true, Raw.take?, if_true]
-      cases hu : Xfer.onUnpack reg pipe (List.take (last - (1 + xferLen)) r3.flatten) with
-      | none => simp [CRead.flat, COut.flat]
-      | some data =>
-        simp only []
-        cases hp : Raw.parseData size pipe data with
-        | error e => simp [CRead.flat, COut.flat]
-        | ok m => simp [CRead.flat, COut.flat, hfl']
-    · have hlt : r3.flatten.length ≤ last - (1 + xferLen) := by omega
-      have hd : decide (last - (1 + xferLen) ≤ r3.flatten.length) = false := decide_eq_false hn
-      simp only [hd]
-      simp only [Raw.take?, hn, ↓reduceIte, CRead.flat, COut.flat, List.length_take, Nat.min_eq_right hlt, hlen]
+  simp only []
+  obtain ⟨r', hrf, hfl⟩ := readFull_flatten (last - (1 + xferLen)) r3
+  simp only [hrf]
+  by_cases hn : last - (1 + xferLen) ≤ r3.flatten.length
+  · have hfl' := hfl hn
+    simp only [hn, decide_true, Raw.take?, if_true]
+    cases hu : Xfer.onUnpack reg pipe (List.take (last - (1 + xferLen)) r3.flatten) with
+    | none => simp [CRead.flat, COut.flat]
+    | some data =>
+      simp only []
+      cases hp : Raw.parseData size pipe data with
+      | error e => simp [CRead.flat, COut.flat]
+      | ok m => simp [CRead.flat, COut.flat, hfl']
+  · have hlt : r3.flatten.length ≤ last - (1 + xferLen) := by omega
+    have hd : decide (last - (1 + xferLen) ≤ r3.flatten.length) = false := decide_eq_false hn
+    simp only [hd]
+    simp only [Raw.take?, hn, ↓reduceIte, CRead.flat, COut.flat, List.length_take, Nat.min_eq_right hlt, hlen]
 
-theorem xferC_flat (reg : Registry) (size last cap alloc inpLen : Nat) (r1 : Reader)
+theorem xferC_flat (reg : Registry) (size last alloc inpLen : Nat) (r1 : Reader)
     (hlen : inpLen = 4 + r1.flatten.length) :
-    (unpackXferC reg size last cap alloc r1).flat =
-      Raw.unpackXfer reg size last cap alloc inpLen r1.flatten := by
+    (unpackXferC reg size last alloc r1).flat =
+      Raw.unpackXfer reg size last alloc inpLen r1.flatten := by
   unfold unpackXferC
   obtain ⟨r2, hrf, hfl⟩ := readFull_flatten 1 r1
   simp only [hrf]
@@ -131,7 +129,7 @@ theorem xferC_flat (reg : Registry) (size last cap alloc inpLen : Nat) (r1 : Rea
       rw [this, hf]; rfl
     simp only [List.length_cons, Nat.le_add_left, decide_true, List.take_succ_cons, List.take_zero,
       Raw.unpackXfer]
-    by_cases h1 : cap < xl.toNat
+    by_cases h1 : last - 1 < xl.toNat
     · simp [h1, CRead.flat, COut.flat]
     · simp only [h1, if_false, Bool.true_eq_false]
       obtain ⟨r3, hrf3, hfl3⟩ := readFull_flatten xl.toNat r2
@@ -156,8 +154,8 @@ theorem xferC_flat (reg : Registry) (size last cap alloc inpLen : Nat) (r1 : Rea
         congr 1
         omega
 
-theorem unpack_short (reg : Registry) (limit cap0 : Nat) (f : Bytes) (h : f.length < 4) :
-    Raw.unpack reg limit cap0 f = ⟨.eof, f.length, 4⟩ := by
+theorem unpack_short (reg : Registry) (limit : Nat) (f : Bytes) (h : f.length < 4) :
+    Raw.unpack reg limit f = ⟨.eof, f.length, 4, 4⟩ := by
   cases f with
   | nil => simp [Raw.unpack]
   | cons a f => cases f with
@@ -168,9 +166,9 @@ theorem unpack_short (reg : Registry) (limit cap0 : Nat) (f : Bytes) (h : f.leng
         | nil => simp [Raw.unpack]
         | cons d f => simp at h; omega
 
-theorem unpackChunked_long (reg : Registry) (limit cap0 : Nat) (r r1 : Reader) (a b c d : UInt8) (f1 : Bytes)
+theorem unpackChunked_long (reg : Registry) (limit : Nat) (r r1 : Reader) (a b c d : UInt8) (f1 : Bytes)
     (hrf : readFull 4 r = ([a, b, c, d], true, r1)) (hfl : r1.flatten = f1) :
-    (unpackChunked reg limit cap0 r).flat = Raw.unpack reg limit cap0 (a :: b :: c :: d :: f1) := by
+    (unpackChunked reg limit r).flat = Raw.unpack reg limit (a :: b :: c :: d :: f1) := by
   unfold unpackChunked
   simp only [hrf]
   simp only [Bool.true_eq_false, ↓reduceIte]
@@ -183,7 +181,7 @@ theorem unpackChunked_long (reg : Registry) (limit cap0 : Nat) (r r1 : Reader) (
   by_cases h2 : size < 4
   · rw [if_pos h2, if_pos h2]; rfl
   rw [if_neg h2, if_neg h2]
-  by_cases h3 : (if cap0 < size - 4 then size - 4 else cap0) < 1
+  by_cases h3 : size - 4 < 1
   · rw [if_pos h3, if_pos h3]; rfl
   rw [if_neg h3, if_neg h3]
   rw [← hfl]
@@ -192,9 +190,9 @@ theorem unpackChunked_long (reg : Registry) (limit cap0 : Nat) (r r1 : Reader) (
   omega
 /-- `rawProto.Unpack` over ANY chunking = `Raw.unpack` on the concatenation: same outcome (same message,
     the rest being the concatenation of what is left; same error class), same number of bytes consumed,
-    same largest buffer request. -/
-theorem unpackChunked_flat (reg : Registry) (limit cap0 : Nat) (r : Reader) :
-    (unpackChunked reg limit cap0 r).flat = Raw.unpack reg limit cap0 r.flatten := by
+    same largest buffer request, same largest read request. -/
+theorem unpackChunked_flat (reg : Registry) (limit : Nat) (r : Reader) :
+    (unpackChunked reg limit r).flat = Raw.unpack reg limit r.flatten := by
   obtain ⟨r1, hrf, hfl⟩ := readFull_flatten 4 r
   by_cases hn : 4 ≤ r.flatten.length
   · have hfl' := hfl hn
@@ -208,29 +206,29 @@ theorem unpackChunked_flat (reg : Registry) (limit cap0 : Nat) (r : Reader) :
           | nil => rw [hf] at hn; simp at hn
           | cons d f1 =>
             rw [hf] at hrf hfl'
-            exact unpackChunked_long reg limit cap0 r r1 a b c d f1 (by rw [hrf]; simp) (by rw [hfl']; rfl)
+            exact unpackChunked_long reg limit r r1 a b c d f1 (by rw [hrf]; simp) (by rw [hfl']; rfl)
   · have hlt : r.flatten.length ≤ 4 := by omega
     have hd : decide (4 ≤ r.flatten.length) = false := decide_eq_false hn
-    rw [unpack_short reg limit cap0 r.flatten (by omega)]
+    rw [unpack_short reg limit r.flatten (by omega)]
     unfold unpackChunked
     simp only [hrf, hd, ↓reduceIte, CRead.flat, COut.flat, List.length_take, Nat.min_eq_right hlt]
 
 /-- any number of back-to-back frames over ANY chunking = `Raw.unpackN` on the concatenation. -/
-theorem unpackNChunked_flat (reg : Registry) (limit cap0 : Nat) (n : Nat) (r : Reader) :
-    (unpackNChunked reg limit cap0 n r).map (fun p => (p.1, p.2.flatten)) =
-      Raw.unpackN reg limit cap0 n r.flatten := by
+theorem unpackNChunked_flat (reg : Registry) (limit : Nat) (n : Nat) (r : Reader) :
+    (unpackNChunked reg limit n r).map (fun p => (p.1, p.2.flatten)) =
+      Raw.unpackN reg limit n r.flatten := by
   induction n generalizing r with
   | zero => simp [unpackNChunked, Raw.unpackN]
   | succ k ih =>
-    have h := unpackChunked_flat reg limit cap0 r
-    have ho : (unpackChunked reg limit cap0 r).out.flat = (Raw.unpack reg limit cap0 r.flatten).out := by
+    have h := unpackChunked_flat reg limit r
+    have ho : (unpackChunked reg limit r).out.flat = (Raw.unpack reg limit r.flatten).out := by
       rw [← h]; rfl
     simp only [unpackNChunked, Raw.unpackN, ← ho]
-    cases hc : (unpackChunked reg limit cap0 r).out with
+    cases hc : (unpackChunked reg limit r).out with
     | ok m rest =>
       simp only [COut.flat]
       rw [← ih rest]
-      cases unpackNChunked reg limit cap0 k rest <;> simp
+      cases unpackNChunked reg limit k rest <;> simp
     | eof => simp [COut.flat]
     | size => simp [COut.flat]
     | reject w => simp [COut.flat]
